@@ -200,7 +200,7 @@ def mask(*ks):
 G_A = mask('transpose', 'reshape', 'tile', 'flip')
 G_B = mask('bcast', 'pad', 'take', 'repeat', 'slice')
 G_C = mask('neg', 'add2', 'sum', 'cumsum')
-STORES = {'dyn': 0, 'sv': 1, 'arr': 2, 'hyb': 3, 'fix': 4}
+STORES = {'dyn': 0, 'sv': 1, 'arr': 2, 'hyb': 3, 'fix': 4, 'dyc': 5}
 EVAL, OUT = 1, 2
 
 
@@ -231,6 +231,8 @@ TUS = [
     _tu('h_c02_d2c', 'dyn', ALL, G_C, d2=0),          # ufunc / reduce on top: read only (their evaluation: depth 1, C07/C08 replay)
     _tu('h_c02_d3a', 'dyn', *D3A, d3=OUT),
     _tu('h_c02_d3b', 'dyn', *D3B, d3=OUT, tiers=('thorough',)),
+    # dynamic COLUMN-MAJOR source (column_major_offset_t): every kind at depth 1, view + eval + out (seeded C02-2 / C01-1 / C10-1)
+    _tu('h_c02_dyc', 'dyc', ALL, d1=EVAL | OUT),
     # bounded: buffer static_vector<int,64>, shape static_vector<size_t,4>, arguments static_vector<_,8> (na::eval() of such a
     # view does not resolve a buffer type at compile time, so results are evaluated into a caller-supplied output only)
     _tu('h_c02_sv', 'sv', ALL, BND_M2, d1=OUT, d2=OUT),
@@ -255,7 +257,7 @@ def tus(tier):
 
 def tu_accepts_shape(t, s):
     st = t['store']
-    if st == 'dyn':
+    if st in ('dyn', 'dyc'):
         return True
     if st == 'sv':
         return len(s) <= 4 and prod(s) <= 64
@@ -516,6 +518,9 @@ def store_shapes(tier, t):
     R, E = (3, 3) if tier == 'quick' else (4, 5)
     if st == 'dyn':
         return None
+    if st == 'dyc':
+        # non-palindromic shapes matter: there the reversed strides of the reversed shape differ from those of the shape
+        return [s for s in shapes(3, 3 if tier == 'quick' else 4, min_rank=1) if prod(s) > 1]
     if st == 'sv':
         return [s for s in shapes(min(R, 4), min(E, 4), min_rank=1) if prod(s) <= 64]
     if st == 'arr':
